@@ -565,7 +565,7 @@ func zzH_C12_commit_reopen(t *zzT) {
 // overwritten-then-deleted and deleted-then-recreated are covered.
 //
 //zz:opt loop=16 require=created-then-deleted,overwritten-then-deleted,deleted-then-recreated
-//zz:quick N=2 K=2 VLO=1 READS=1
+//zz:quick N=2 K=2 VLO=0 READS=1
 //zz:thorough N=1 K=3 VHI=2 READS=1 paths=2000000 budget=3600s
 func zzH_C05_commit_revert(t *zzT) {
 	sc, infos, diff := zzCommitScenario(t)
